@@ -82,12 +82,22 @@ TBatch ==
 
 (* A read that returns an error, panics or returns a payload that was never appended      *)
 (* (reported as res = "err"/"panic"/"foreign") matches no action: the group is rejected.  *)
+(* C11: after opening a damaged directory the only obligation on reads is that every       *)
+(* returned payload was appended to that topic (entries may be missing, repeated, reordered; *)
+(* a read may also return an error).                                                      *)
+Appended(t) == {log[t][j] : j \in 1 .. Len(log[t])}
+TDamagedRead ==
+  /\ Ev.ev \in {"read", "bread"} /\ "dmg" \in DOMAIN Ev
+  /\ Ev.st \in {"ok", "err"}
+  /\ \A j \in 1 .. Len(Ev.res) : <<Ev.res[j][1], Ev.res[j][2]>> \in Appended(Ev.t)
+  /\ UNCHANGED avars
+
 TRead ==
-  /\ Ev.ev = "read" /\ Ev.st = "ok"
+  /\ Ev.ev = "read" /\ Ev.st = "ok" /\ "dmg" \notin DOMAIN Ev
   /\ \E c \in Cands(Ev.t) : ReadNext(Ev.t, Ev.ckpt, c, Pairs(Ev.res))
 
 TBRead ==
-  /\ Ev.ev = "bread" /\ Ev.st = "ok"
+  /\ Ev.ev = "bread" /\ Ev.st = "ok" /\ "dmg" \notin DOMAIN Ev
   /\ IF Ev.off < 0
      THEN \E c \in Cands(Ev.t) : BatchRead(Ev.t, Ev.budget, Ev.ckpt, c, Pairs(Ev.res))
      ELSE OffsetRead(Ev.t, Ev.budget, Ev.ckpt, Ev.headof, Pairs(Ev.res))
@@ -130,7 +140,7 @@ TNote ==
 
 Regular ==
   /\ l <= N
-  /\ \/ TAppend \/ TBatch \/ TRead \/ TBRead \/ TCounts \/ TIsClean \/ TMark
+  /\ \/ TAppend \/ TBatch \/ TRead \/ TBRead \/ TDamagedRead \/ TCounts \/ TIsClean \/ TMark
      \/ TReopen \/ TCrash \/ TReclaim \/ TNote
   /\ l' = l + 1
   /\ UNCHANGED ok
